@@ -617,6 +617,12 @@ class World:
         if kind == "val_raise":
             self.fired.append(("val", n, kind, os.path.basename(path)))
             raise InjectedIOError("injected failure in validation")
+        if kind == "val_raise_eio":
+            # a validator that rejects by raising an OSError that carries an errno (I/O error on read)
+            import errno
+
+            self.fired.append(("val", n, kind, os.path.basename(path)))
+            raise OSError(errno.EIO, "injected I/O error while validating")
         # like a real validator: open the file (IOError if it is gone) and accept it only if it holds one of the
         # remote objects (optionally post-processed); anything else is a corrupted / foreign file
         data = read_noatime(path)
